@@ -55,9 +55,12 @@ func scratchDir() string {
 }
 
 func newSolver(tier string) *Solver {
-	s := &Solver{dir: filepath.Join(scratchDir(), "smt"), quickS: 4, slowS: 12, workers: 16}
+	// generous limits: an obligation that is decided on an idle machine in a few seconds must not
+	// time out when the machine is loaded (the race stops at the first answer, so the limits only
+	// cost time for obligations that fail)
+	s := &Solver{dir: filepath.Join(scratchDir(), "smt"), quickS: 5, slowS: 40, workers: 16}
 	if tier == "thorough" {
-		s.quickS, s.slowS = 10, 60
+		s.quickS, s.slowS = 10, 120
 	}
 	return s
 }
